@@ -136,7 +136,7 @@ def gen_int_cases(rng, n):
     return cases
 
 
-FLOAT_ALPHABET = re.compile(rb"^-?(inf|NaN|[0-9]+(\.[0-9]+)?(e-?[0-9]+)?)$")
+FLOAT_ALPHABET = re.compile(rb"^-?(inf|NaN|[0-9]+(\.[0-9]+)?(e[+-]?[0-9]+)?)$")
 
 
 def oracle_float(case, out, consts):
